@@ -83,6 +83,7 @@ func (p *SliceLossIndication) Unmarshal(rawPacket []byte) error {
 
 	p.SenderSSRC = binary.BigEndian.Uint32(rawPacket[headerLength:])
 	p.MediaSSRC = binary.BigEndian.Uint32(rawPacket[headerLength+ssrcLength:])
+	p.SLI = nil
 	for i := headerLength + sliOffset; i < (headerLength + length); i += 4 {
 		sli := binary.BigEndian.Uint32(rawPacket[i:])
 		p.SLI = append(p.SLI, SLIEntry{
